@@ -255,8 +255,7 @@ _CRASH_RULE = ("workloads of write transactions (1-8 writes, values up to 900 by
                "after the interrupted transaction, all acknowledged commits included), written to, closed cleanly, opened again "
                "and scanned again; the process may also die with the last commit's record half written (torn tail: crashtear), after "
                "which the store is reopened (repair) and the workload continues; images taken after a batch straddled a memtable "
-               "rotation (known finding) are still judged: only a suffix of THAT batch's writes may be missing; cases with several "
-               "straddling batches are counted, not judged; non-trivial = at least 3 crash images; distinct = distinct op lists")
+               "rotation (fixed: 3449869) are judged like any other; non-trivial = at least 3 crash images; distinct = distinct op lists")
 _CRASH_ASSUME = ["process-crash model only: every completed write is kept; power loss (unsynced data lost, namespace operations "
                  "undone) is not explored by this check and not modelled by the theorems (partial)",
                  "crash instants are the yield points (file-system boundaries of the engine operations), not arbitrary byte "
